@@ -1477,6 +1477,126 @@ pub fn gen_soup(rng: &mut Rng) -> Vec<u8> {
 
 /// A program in which the two extreme jump displacements are both TAKEN: `ja +32767` at pc 1 and
 /// `ja -32768` near pc 32771 (then a second pass and exit). Result: 2.
+
+// ---------------------------------------------------------------------------------------------
+// G-fusion: adjacent instruction pairs an optimiser is tempted to fuse, with control flow entering
+// between the two halves
+
+/// Straight-line arithmetic on two or three registers, drawn from idiom pairs (zero/sign-extension
+/// by shifts, mov+add, double negation, swap twice, mask+shift, add+add, x^x, lddw+add ...), inside a
+/// counted loop whose back edge, and forward conditional jumps, land on arbitrary instruction
+/// boundaries - in particular on the SECOND instruction of a pair. Everything is defined and no
+/// memory is touched, so the reference machine predicts the value exactly.
+pub fn gen_fusion(rng: &mut Rng) -> Case {
+    let kind = *rng.pick(&[Kind::Raw, Kind::NoData, Kind::Mbuff, Kind::Fixed]);
+    let mut b = Builder::new();
+    let work: Vec<u8> = match rng.below(3) {
+        0 => vec![0, 1],
+        1 => vec![0, 3, 7],
+        _ => vec![2, 0, 8, 5],
+    };
+    let counter = 6u8;
+    for r in 0..=9u8 {
+        if r == counter {
+            continue;
+        }
+        match rng.below(3) {
+            0 => b.i(MOV64_IMM, r, 0, 0, rng.next() as i32),
+            1 => b.lddw(r, rng.next()),
+            _ => b.lddw(r, *rng.pick(&[0u64, 1, 0xffff_ffff, 0x8000_0000, 0x1_0000_0000, u64::MAX, 0x8000_0000_0000_0000, 0x1234_5678_9abc_def0])),
+        }
+    }
+    b.i(MOV64_IMM, counter, 0, 0, rng.range(2, 4) as i32);
+    let n_items = rng.range(6, 28) as usize;
+    // labels at every item boundary; jumps pick among them
+    let labels: Vec<usize> = (0..=n_items * 2 + 2).map(|_| b.label()).collect();
+    let mut li = 0usize;
+    let mut pending_fwd: Vec<usize> = Vec::new();
+    let alu64 = |op: u8, imm: bool| -> u8 { (op << 4) | if imm { 0x07 } else { 0x0f } };
+    let alu32 = |op: u8, imm: bool| -> u8 { (op << 4) | if imm { 0x04 } else { 0x0c } };
+    for _ in 0..n_items {
+        let r = *rng.pick(&work);
+        let r2 = *rng.pick(&work);
+        let sh = *rng.pick(&[32i32, 32, 32, 16, 48, 56, 8, 24, 31, 1]);
+        // first half, [label], second half: a label sits BETWEEN the halves of every pair
+        let mid = labels[li];
+        li += 1;
+        let after = labels[li];
+        li += 1;
+        let pick = rng.below(18);
+        let (first, second): ((u8, u8, u8, i32), (u8, u8, u8, i32)) = match pick {
+            0 => ((alu64(6, true), r, 0, sh), (alu64(7, true), r, 0, sh)),        // lsh; rsh  (zero-extension)
+            1 => ((alu64(6, true), r, 0, sh), (alu64(12, true), r, 0, sh)),       // lsh; arsh (sign-extension)
+            2 => ((alu32(6, true), r, 0, sh & 31), (alu32(7, true), r, 0, sh & 31)),
+            3 => ((alu64(7, true), r, 0, sh), (alu64(6, true), r, 0, sh)),        // rsh; lsh  (clear low bits)
+            4 => ((MOV64_IMM, r, 0, rng.next() as i32), (alu64(0, true), r, 0, rng.range(-200, 200) as i32)),
+            5 => ((alu64(0, true), r, 0, rng.range(-130, 130) as i32), (alu64(0, true), r, 0, rng.range(-130, 130) as i32)),
+            6 => ((NEG64, r, 0, 0), (NEG64, r, 0, 0)),
+            7 => ((MOV64_REG, r, r2, 0), (MOV64_REG, r2, r, 0)),
+            8 => ((alu64(5, true), r, 0, *rng.pick(&[0xff, 0xffff, 0x7fff_ffff, -1, -256])), (alu64(6, true), r, 0, sh & 63)),
+            9 => ((alu64(10, false), r, r, 0), (alu64(0, false), r, r2, 0)),      // xor r,r; add r,r2
+            10 => ((alu64(2, true), r, 0, *rng.pick(&[2, 4, 8, 3, -1])), (alu64(3, true), r, 0, *rng.pick(&[2, 4, 8, 3, -1]))),
+            11 => ((MOV32_REG, r, r, 0), (alu64(0, false), r, r2, 0)),            // mov32 r,r (zero-extend); add
+            12 => ((BE, r, 0, *rng.pick(&[16, 32, 64])), (BE, r, 0, *rng.pick(&[16, 32, 64]))),
+            13 => ((LE, r, 0, *rng.pick(&[16, 32, 64])), (alu64(7, true), r, 0, sh & 63)),
+            14 => ((alu64(1, false), r, r, 0), (alu64(4, false), r, r2, 0)),      // sub r,r; or r,r2
+            15 => ((alu32(0, true), r, 0, rng.next() as i32), (alu64(6, true), r, 0, 32)),
+            16 => ((alu64(4, true), r, 0, 0), (alu64(5, true), r, 0, -1)),        // or 0; and -1 (no-ops)
+            _ => ((alu32(11, false), r, r2, 0), (alu32(12, true), r, 0, sh & 31)),
+        };
+        if pick == 4 && rng.chance(1, 2) {
+            b.lddw(first.1, rng.next());
+        } else {
+            b.i(first.0, first.1, first.2, 0, first.3);
+        }
+        b.place(mid);
+        b.i(second.0, second.1, second.2, 0, second.3);
+        b.place(after);
+        // forward conditional jump to a later boundary (placed when reached)
+        if rng.chance(1, 4) {
+            let jr = *rng.pick(&work);
+            let opc = *rng.pick(&[JEQ_IMM, JNE_IMM, JGT_IMM, 0x65u8, 0x45, 0xa5, 0xc5, 0x35]);
+            let l = b.label();
+            b.j(opc, jr, 0, rng.range(-3, 3) as i32, l);
+            pending_fwd.push(l);
+        }
+        // resolve some pending forward jumps right between the NEXT pair's halves: done by
+        // emitting the label before the next `mid` is placed - approximate it by placing here
+        if !pending_fwd.is_empty() && rng.chance(1, 2) {
+            let l = pending_fwd.remove(0);
+            // land on the second half of a fresh pair
+            let rr = *rng.pick(&work);
+            b.i(alu64(6, true), rr, 0, 0, 32);
+            b.place(l);
+            b.i(if rng.chance(1, 2) { alu64(7, true) } else { alu64(12, true) }, rr, 0, 0, 32);
+        }
+    }
+    for l in pending_fwd.drain(..) {
+        b.place(l);
+    }
+    // loop back edge onto a random earlier boundary (often the middle of a pair)
+    b.i(ADD64_IMM, counter, 0, 0, -1);
+    let back = labels[rng.below(li as u64) as usize];
+    b.j(JNE_IMM, counter, 0, 0, back);
+    // fold every work register into r0
+    for r in &work {
+        if *r != 0 {
+            b.i(MUL64_IMM, 0, 0, 0, 0x01000193);
+            b.i(XOR64_REG, 0, *r, 0, 0);
+        }
+    }
+    b.exit();
+    let prog = b.assemble().expect("fusion program assembles");
+    let mut c = Case::new(kind, prog, "fusion");
+    if kind != Kind::NoData {
+        c.pkt = rng.bytes(16);
+    }
+    if kind == Kind::Mbuff {
+        c.mbuff = rng.bytes(32);
+    }
+    c
+}
+
 pub fn gen_extreme_jumps() -> Case {
     let a = 32769usize;
     let mut v: Vec<Insn> = Vec::with_capacity(a + 4);
